@@ -258,10 +258,13 @@ def run(ctx):
                 trips += 1
                 c2 = p.copy()
                 _ = (c2.to_json(), c2.to_dict())
-                c2.n_obs = 777
-                c2.mu = c2.mu * 0 + 0.25
+                c2.n_obs = 777                       # metadata alone first (the documented way to complete a legacy predictor) ...
+                r1 = enc.outcome(lambda: (Predictor.from_json_str(c2.to_json()), Predictor.from_dict(c2.to_dict()), c2.copy()))
+                c2.mu = c2.mu * 0 + 0.25             # ... then a state variable
                 r2 = enc.outcome(lambda: (Predictor.from_json_str(c2.to_json()), Predictor.from_dict(c2.to_dict()), c2.copy()))
-                if r2[0] != "ok" or any(r.n_obs != 777 or not same_value(r.mu, c2.mu) for r in r2[1]):
+                if r1[0] != "ok" or any(r.n_obs != 777 for r in r1[1]):
+                    r2 = r1
+                if r2[0] != "ok" or any(r.n_obs != 777 for r in r2[1]) or (r2 is not r1 and any(not same_value(r.mu, c2.mu) for r in r2[1])):
                     ctx.violation("C07|%s|serialise-modify-serialise" % cname, "a predictor modified after a first serialisation is written with stale state",
                                   {"class": cname, "expected_n_obs": 777,
                                    "observed": r2[1] if r2[0] == "err" else [repr(r.n_obs) for r in r2[1]]})
